@@ -356,6 +356,88 @@ Definition enc_item (x : item) : line := nz (length x) :: x.
 
 Definition upd (k : Z) (s : sk) (x : item) (w : Z) : sk := sk_update item item_eqb (fi_hash k) s x w.
 
+(* ---------- serialized image (frequent_items_sketch::serialize / deserialize, both the stream and the bytes overloads) ----------
+   byte 0 preamble longs (1 empty / 4), 1 serial version 1, 2 family 10, 3 lg_max, 4 lg_cur, 5 flags (5 = both "empty" bits),
+   6-7 unused; then, unless empty: u32 number of counters, u32 unused, W total weight, W offset, the counters (8 bytes each,
+   iterator order), the items through the serde (uint64_t: 8 bytes each; std::string: u32 length + bytes).  Little endian. *)
+Fixpoint le_enc (n : nat) (v : Z) : list Z :=
+  match n with O => [] | S k => v mod 256 :: le_enc k (v / 256) end.
+Fixpoint le_dec (bs : list Z) : Z :=
+  match bs with [] => 0 | b :: t => b + 256 * le_dec t end.
+
+Definition ser_item (kind : Z) (x : item) : list Z :=
+  if kind =? 2 then le_enc 4 (nz (length x)) ++ x else le_enc 8 (match x with v :: _ => v | [] => 0 end).
+
+Definition sk_serialize (kind : Z) (s : sk) : list Z :=
+  let m := sk_map _ s in
+  if nact _ m =? 0 then [1; 1; 10; Nz (lgm _ m); Nz (lgc _ m); 5; 0; 0]
+  else let es := entries item m in
+       [4; 1; 10; Nz (lgm _ m); Nz (lgc _ m); 0; 0; 0] ++ le_enc 4 (nact _ m) ++ [0; 0; 0; 0] ++
+       le_enc 8 (sk_tot _ s) ++ le_enc 8 (sk_off _ s) ++
+       flat_map (fun c => le_enc 8 (cv _ c)) es ++ flat_map (fun c => ser_item kind (ck _ c)) es.
+
+Definition split_at (n : nat) (l : list Z) : option (list Z * list Z) :=
+  if (n <=? length l)%nat then Some (firstn n l, skipn n l) else None.
+
+Fixpoint de_weights (n : nat) (l : list Z) : option (list Z * list Z) :=
+  match n with
+  | O => Some ([], l)
+  | S k => match split_at 8 l with
+           | None => None
+           | Some (b, r) => match de_weights k r with
+                            | None => None
+                            | Some (ws, r') => Some (le_dec b :: ws, r')
+                            end
+           end
+  end.
+
+Fixpoint de_items (kind : Z) (n : nat) (l : list Z) : option (list item * list Z) :=
+  match n with
+  | O => Some ([], l)
+  | S k =>
+      if kind =? 2 then
+        match split_at 4 l with
+        | None => None
+        | Some (lb, r) =>
+            match split_at (Z.to_nat (le_dec lb)) r with
+            | None => None
+            | Some (x, r2) => match de_items kind k r2 with
+                              | None => None
+                              | Some (xs, r3) => Some (x :: xs, r3)
+                              end
+            end
+        end
+      else
+        match split_at 8 l with
+        | None => None
+        | Some (b, r) => match de_items kind k r with
+                         | None => None
+                         | Some (xs, r3) => Some ([le_dec b] :: xs, r3)
+                         end
+        end
+  end.
+
+Definition sk_deserialize (kind : Z) (bs : list Z) : option sk :=
+  match bs with
+  | pl :: sv :: fam :: lgmax :: lgcur :: flags :: _ :: _ :: rest =>
+      let empty := negb (Z.land flags 5 =? 0) in
+      if negb (pl =? (if empty then 1 else 4)) || negb (sv =? 1) || negb (fam =? 10) || (lgmax <? lgcur) || (lgcur <? 3)
+      then None else
+      let s0 := sk_new item (zN lgmax) (zN lgcur) in
+      if empty then Some s0 else
+      match split_at 4 rest with None => None | Some (nb, r1) =>
+      match split_at 4 r1 with None => None | Some (_, r2) =>
+      match split_at 8 r2 with None => None | Some (tb, r3) =>
+      match split_at 8 r3 with None => None | Some (ob, r4) =>
+      let n := Z.to_nat (le_dec nb) in
+      match de_weights n r4 with None => None | Some (ws, r5) =>
+      match de_items kind n r5 with None => None | Some (xs, _) =>
+        let s1 := fold_left (fun s xw => upd kind s (fst xw) (snd xw)) (combine xs ws) s0 in
+        Some {| sk_tot := le_dec tb; sk_off := le_dec ob; sk_map := sk_map _ s1 |}
+      end end end end end end
+  | _ => None
+  end.
+
 (* canonical orders for output *)
 Definition rows_by_item (l : list (cell item)) : list (cell item) :=
   isort (fun a b => item_leb (ck _ a) (ck _ b)) l.
@@ -405,12 +487,14 @@ Definition step (s : list (Z * full)) (o e : line) : list (Z * full) * outline :
                  log_total (f_log f) :: flat_map (fun kv => enc_item (fst kv) ++ [snd kv]) (f_log f)))
         | _, _ => (s, (refused, []))
         end
-      else if (opc =? 7) || (opc =? 17) then                       (* serialize r, deserialize into w *)
+      else if (opc =? 7) || (opc =? 17) then                       (* serialize r, deserialize into w; R = 1, length, bytes *)
         match reg_get s r with
         | Some f =>
-            (reg_set s w {| f_kind := f_kind f;
-                            f_sk := sk_roundtrip item item_eqb (fi_hash (f_kind f)) (f_sk f);
-                            f_log := f_log f |}, (ok, []))
+            let bs := sk_serialize (f_kind f) (f_sk f) in
+            match sk_deserialize (f_kind f) bs with
+            | Some k' => (reg_set s w {| f_kind := f_kind f; f_sk := k'; f_log := f_log f |}, (1 :: nz (length bs) :: bs, []))
+            | None => (s, (refused, []))
+            end
         | None => (s, (refused, []))
         end
       else if opc =? 8 then                                         (* copy r into w *)
